@@ -14,6 +14,41 @@ namespace xc {
 #undef CBlockIndex_s
 }
 extern "C" bool xc_CBlockIndexWorkComparator(const xc::xc_CBlockIndex*, const xc::xc_CBlockIndex*);
+// ---- one round of ActivateBestChain: the ORIGINAL statement range compiled inside a stand-in for Chainstate; both renderings are driven by the same script
+#include <memory>
+#include <vector>
+struct Script { std::vector<int> fmw; std::vector<int> step_ok, step_invalid, step_newtip, reached, worse; size_t i_fmw{0}, i_step{0}, i_r{0}, i_w{0}; int steps{0}; };
+static Script* g_sc; static CBlockIndex g_pool_real[4]; static xc::xc_CBlockIndex g_pool_x[4];
+template <class T> static T pick(std::vector<T>& v, size_t& i) { T x = v[i % v.size()]; i++; return x; }
+namespace standin {
+struct CBlock { uint256 GetHash() const { return uint256{}; } };
+struct ConnectedBlock { CBlockIndex* index; std::shared_ptr<const CBlock> block; };
+struct Sig { template <class... A> void BlockConnected(A&&...) {} };
+struct Opts { Sig* signals{nullptr}; }; struct Man { Opts m_options; };
+struct ChainT { CBlockIndex* tip{nullptr}; CBlockIndex* Tip() const { return tip; } };
+enum class ChainstateRole { NORMAL };
+struct BlockValidationState {};
+struct CBlockIndexWorkComparator { bool operator()(const CBlockIndex*, const CBlockIndex*) const { return pick(g_sc->worse, g_sc->i_w) != 0; } };
+struct Chainstate {
+    ChainT m_chain; Man m_chainman; ChainstateRole GetRole() const { return ChainstateRole::NORMAL; }
+    CBlockIndex* FindMostWorkChain() { int k = pick(g_sc->fmw, g_sc->i_fmw); return k < 0 ? nullptr : &g_pool_real[k]; }
+    bool ReachedTarget() { return pick(g_sc->reached, g_sc->i_r) != 0; }
+    bool ActivateBestChainStep(BlockValidationState&, CBlockIndex&, const std::shared_ptr<const CBlock>&, bool& fInvalidFound, std::vector<ConnectedBlock>&)
+    { g_sc->steps++; size_t i = g_sc->i_step++; fInvalidFound = g_sc->step_invalid[i % g_sc->step_invalid.size()]; int nt = g_sc->step_newtip[i % g_sc->step_newtip.size()]; if (nt >= 0) m_chain.tip = &g_pool_real[nt]; return g_sc->step_ok[i % g_sc->step_ok.size()]; }
+    int round(CBlockIndex* pindexMostWork, CBlockIndex* starting_tip, std::shared_ptr<const CBlock> pblock) {
+        BlockValidationState state; CBlockIndex* pindexNewTip = nullptr; (void)pindexNewTip;
+        auto body = [&]() -> int {
+#define Assert(x) (x)
+#include "orig_activate_round.inc"
+            return 2; };
+        return body(); }
+};
+}
+extern "C" { extern const xc::xc_CBlockIndex* g_tip; int xc_ActivateBestChain_round(const xc::xc_CBlockIndex*, const xc::xc_CBlockIndex*);
+  const xc::xc_CBlockIndex* FindMostWorkChain_stub(void) { int k = pick(g_sc->fmw, g_sc->i_fmw); return k < 0 ? nullptr : &g_pool_x[k]; }
+  bool ActivateBestChainStep_stub(const xc::xc_CBlockIndex*, bool* inv) { g_sc->steps++; size_t i = g_sc->i_step++; *inv = g_sc->step_invalid[i % g_sc->step_invalid.size()]; int nt = g_sc->step_newtip[i % g_sc->step_newtip.size()]; if (nt >= 0) g_tip = &g_pool_x[nt]; return g_sc->step_ok[i % g_sc->step_ok.size()]; }
+  bool ReachedTarget_stub(void) { return pick(g_sc->reached, g_sc->i_r) != 0; }
+  bool WorkComparator_stub(const xc::xc_CBlockIndex*, const xc::xc_CBlockIndex*) { return pick(g_sc->worse, g_sc->i_w) != 0; } }
 #define BAD(...) do { rv::g_stats.real_violations++; if (rv::g_stats.real_violations <= 8) { std::printf("REAL-VIOLATION " __VA_ARGS__); std::printf("\n"); } } while (0)
 #define DIS(...) do { rv::g_stats.disagreements++; if (rv::g_stats.disagreements <= 8) { std::printf("DISAGREE " __VA_ARGS__); std::printf("\n"); } } while (0)
 int main(int argc, char** argv)
@@ -30,6 +65,16 @@ int main(int argc, char** argv)
         rv::g_stats.inputs++;
         if (real != xr) DIS("comparator real %d extracted %d", real, xr);
         if (real != want) BAD("CBlockIndexWorkComparator(work %s seq %d, work %s seq %d) = %d, the order says %d", b[p].nChainWork.GetHex().c_str(), b[p].nSequenceId, b[q].nChainWork.GetHex().c_str(), b[q].nSequenceId, real, want);
+    }
+    for (uint64_t i = 0; i < n / 4; i++) {
+        Script sc; for (int k = 0; k < 6; k++) { sc.fmw.push_back((int)r.below(5) - 1); sc.step_ok.push_back(r.below(10) != 0); sc.step_invalid.push_back(r.below(3) == 0); sc.step_newtip.push_back(r.below(3) == 0 ? -1 : (int)r.below(4)); sc.reached.push_back(r.below(4) == 0); sc.worse.push_back(r.below(3) == 0); }
+        int mw = (int)r.below(5) - 1, st = (int)r.below(5) - 1; Script s1 = sc, s2 = sc;
+        g_sc = &s1; standin::Chainstate cs; cs.m_chain.tip = st < 0 ? nullptr : &g_pool_real[st]; int real = cs.round(mw < 0 ? nullptr : &g_pool_real[mw], st < 0 ? nullptr : &g_pool_real[st], nullptr);
+        g_sc = &s2; g_tip = st < 0 ? nullptr : &g_pool_x[st]; int xr = xc_ActivateBestChain_round(mw < 0 ? nullptr : &g_pool_x[mw], st < 0 ? nullptr : &g_pool_x[st]);
+        rv::g_stats.inputs++;
+        if (real != xr || s1.steps != s2.steps) DIS("ActivateBestChain round: real %d (%d steps) extracted %d (%d steps)", real, s1.steps, xr, s2.steps);
+        if (real == 1 && s1.steps > 0) BAD("ActivateBestChain gives up early ('nothing to do') although an activation step ran in this round (most-work candidate %d, starting tip %d, step found invalid block=%d)", mw, st, (int)sc.step_invalid[0]);
+        if (real == 2 && s1.steps == 0) BAD("ActivateBestChain goes on to notifications although no step ran");
     }
     rv::report();
     return rv::g_stats.real_violations ? 1 : (rv::g_stats.disagreements ? 3 : 0);
